@@ -6,6 +6,7 @@ import FFVerif.Pins.pinConcatenateWithoutFF
 import FFVerif.Pins.pinControlMatrixFromAtomic
 import FFVerif.Pins.pinBasisArrayFinalize
 import FFVerif.Pins.pinHashArray
+import FFVerif.Pins.pinConcatenateHamiltonian
 #print axioms FFVerif.C03a.concat_error_is_valueError
 #print axioms FFVerif.C03a.concat_errors_iff
 #print axioms FFVerif.C03a.concat_sorted
@@ -77,3 +78,4 @@ import FFVerif.Pins.pinHashArray
 #print axioms FFVerif.Pins.pinControlMatrixFromAtomic
 #print axioms FFVerif.Pins.pinBasisArrayFinalize
 #print axioms FFVerif.Pins.pinHashArray
+#print axioms FFVerif.Pins.pinConcatenateHamiltonian
